@@ -1,0 +1,58 @@
+//go:build verif
+
+package ttlv
+
+import (
+	"reflect"
+	"sync/atomic"
+)
+
+// This file is only compiled with the "verif" build tag. It lets the external
+// verification harness observe and schedule the accesses to the two plan caches.
+// It adds no behaviour to the library when no hook is installed.
+
+const (
+	VerifCacheEncode = 0
+	VerifCacheDecode = 1
+	VerifOpLoad      = 0 // about to call Load
+	VerifOpStore     = 1 // about to call Store
+)
+
+var verifCacheHook atomic.Pointer[func(cache, op int, ty reflect.Type)]
+
+// VerifSetCacheHook installs (or removes, with nil) the function called right before
+// every Load and Store on encodeFuncsCache / decodeFuncsCache.
+func VerifSetCacheHook(f func(cache, op int, ty reflect.Type)) {
+	if f == nil {
+		verifCacheHook.Store(nil)
+		return
+	}
+	verifCacheHook.Store(&f)
+}
+
+func verifCachePoint(cache, op int, ty reflect.Type) {
+	if f := verifCacheHook.Load(); f != nil {
+		(*f)(cache, op, ty)
+	}
+}
+
+// VerifResetCaches empties both plan caches (as in a process that has not encoded or
+// decoded anything yet).
+func VerifResetCaches() {
+	encodeFuncsCache.Clear()
+	decodeFuncsCache.Clear()
+}
+
+// VerifCacheKeys lists the types that currently have a cached plan.
+func VerifCacheKeys(cache int) []reflect.Type {
+	m := encodeFuncsCache
+	if cache == VerifCacheDecode {
+		m = decodeFuncsCache
+	}
+	var out []reflect.Type
+	m.Range(func(k, _ any) bool {
+		out = append(out, k.(reflect.Type))
+		return true
+	})
+	return out
+}
